@@ -1,28 +1,32 @@
 (* C18: what the driver evaluates on every observed case *)
 From Coq Require Import List Bool ZArith.
-Require Export C18 C18_More.
+Require Export C18 C18_More C18_Stale.
 Import ListNotations.
 
-(* (combined, cfg, observed trace): combined = the steps were passed as ONE step built by gormx.Combine *)
-Definition case := (bool * cfg * trace)%type.
+(* (mode, cfg, observed trace): MCombined = the steps were passed as ONE step built by gormx.Combine;
+   MStale = steps passed directly, on a handle that already carries an error *)
+Definition case := (mode * cfg * trace)%type.
 
 Definition trace_eqb (a b : trace) : bool := list_eqb event_eqb (fst a) (fst b) && result_eqb (snd a) (snd b).
 
 Definition case_accept (c : case) : bool :=
-  let '(comb, cf, t) := c in
-  trace_eqb (if comb then transact_comb cf else transact cf) t.
+  let '(m, cf, t) := c in
+  trace_eqb (match m with MCombined => transact_comb cf | MDirect => transact cf | MStale => transact_stale cf end) t.
 
 (* the monitor of C18.v speaks of Transact with the steps given directly; a combined run with at least one
    sub-step must satisfy the very same clauses; an empty Combine is one succeeding step *)
 Definition case_holds (c : case) : bool :=
-  let '(comb, cf, t) := c in
-  if comb then
+  let '(m, cf, t) := c in
+  match m with
+  | MCombined =>
     match steps cf with
     | [] => holds {| begin_ok := begin_ok cf; commit_ok := commit_ok cf; rollback_ok := rollback_ok cf; steps := [SOk] |}
                   (match fst t with EBegin :: rest => (EBegin :: EExec 0 :: rest, snd t) | _ => t end)
     | _ => holds cf t
     end
-  else holds cf t.
+  | MDirect => holds cf t
+  | MStale => holds_stale cf t
+  end.
 
 Lemma trace_eqb_eq a b : trace_eqb a b = true -> a = b.
 Proof.
@@ -33,8 +37,8 @@ Qed.
 
 Theorem case_sound : forall c, case_accept c = true -> case_holds c = true.
 Proof.
-  intros [[comb cf] t] H. unfold case_accept in H. apply trace_eqb_eq in H. subst t. unfold case_holds.
-  destruct comb; [|apply model_holds].
+  intros [[m cf] t] H. unfold case_accept in H. apply trace_eqb_eq in H. subst t. unfold case_holds.
+  destruct m; [apply model_holds| |apply stale_model_holds].
   destruct (steps cf) eqn:E.
   - unfold transact_comb. rewrite E. destruct cf as [b cm rb st]. cbn [begin_ok commit_ok rollback_ok steps] in *.
     destruct b, cm; reflexivity.
